@@ -421,7 +421,7 @@ def run(tier):
     if quick:
         mc = [("MC_Indexer_walk3.cfg", walk_acts), ("MC_Indexer_sync3.cfg", sync_acts), ("MC_Indexer_prune4.cfg", walk_acts)]
     else:
-        mc = [("MC_Indexer_walk4.cfg", walk_acts), ("MC_Indexer_sync4.cfg", sync_acts), ("MC_Indexer_prune4.cfg", walk_acts)]
+        mc = [("MC_Indexer_walk4.cfg", walk_acts), ("MC_Indexer_sync3.cfg", sync_acts), ("MC_Indexer_prune4.cfg", walk_acts)]
 
     def run_mc(item):
         cfg, acts = item
